@@ -361,6 +361,11 @@ def check_symbolic(run, B, tag, ast, n, rng, expr=None, deep=True):
         B.add(f"{tag}:expect_spec:{cls}", f"({zint(ev)} =? dense_expect_state (denote {n}%nat {A}) {P})",
               {**rp, "what": "h.expectation(psi) vs Re <psi|[[form]]|psi>", "impl": float(ev), "kind": "expect"})
         B.add(f"{tag}:expect_dm_spec:{cls}", f"({zint(evd)} =? dense_expect_dm (denote {n}%nat {A}) {R})", {**rp, "what": "h.expectation(rho) vs Re tr([[form]] rho)", "kind": "expect_dm"})
+        if multi:   # the repaired model (factors applied last-to-first), in case /repo has been repaired
+            B.add(f"{tag}:apply_modelfixed", f"meqb (apply_gates_fixed {n}%nat (terms_of {orc}) {P}) {ccol(hpsi)}", rp, expect=None)
+            B.add(f"{tag}:apply_dm_modelfixed", f"meqb (apply_gates_fixed {n}%nat (terms_of {orc}) {R}) {cmat(hrho)}", rp, expect=None)
+            B.add(f"{tag}:expect_modelfixed", f"({zint(ev)} =? expect_state (apply_gates_fixed {n}%nat (terms_of {orc}) {P}) {P})", rp, expect=None)
+            B.add(f"{tag}:expect_dm_modelfixed", f"({zint(evd)} =? expect_dm (apply_gates_fixed {n}%nat (terms_of {orc}) {R}))", rp, expect=None)
         # classification of a spec failure: is it exactly the factor order?
         B.add(f"{tag}:apply_fixed", f"meqb (apply_gates_fixed {n}%nat (terms_of {orc}) {P}) (apply_spec {n}%nat {A} {P})", {**rp, "what": "model with reversed factor order vs spec"})
         # dense route
@@ -424,7 +429,12 @@ def judge(run, B, res):
         tag = label.split(":")[0]
         parts = label.split(":")
         what = parts[1]
-        if ok:
+        if ok or expect is None:
+            continue
+        if what.endswith("_model") and res.get(f"{tag}:{what}fixed", False):
+            # the implementation follows the repaired model (the defect was fixed in /repo)
+            run.notes.setdefault("implementation_follows_repaired_model", {}).setdefault(what, 0)
+            run.notes["implementation_follows_repaired_model"][what] += 1
             continue
         if what.endswith("_spec") and what.split("_spec")[0] in ("apply", "apply_dm", "expect", "expect_dm"):
             # the implementation disagrees with the mathematical operator.  It is the known factor-order
@@ -565,13 +575,15 @@ def samples_value(val, total):
     return zint(float(val) * total)
 
 
-def run_samples(run, rng):
+def run_samples(run, rng, only=None):
     from qibo.hamiltonians import SymbolicHamiltonian, Hamiltonian
     B = Batch(run, "C15_samples")
     count = 40 if run.tier == "quick" else 400
     fixed = [(2, ("M", ("M", ("S", "Z", 0), ("S", "Z", 1)), ("S", "Z", 0)), {"00": 2, "10": 6}, [0, 1]),
              (3, ("S", "Z", 0), {"0": 2, "1": 6}, [0]),
              (3, ("M", ("S", "Z", 0), ("S", "Z", 1)), {"01": 2, "11": 6}, [1, 0])]
+    if only is not None:
+        fixed, count = [only], 0
     for k in range(count + len(fixed)):
         if k < len(fixed):
             n, ast, fr, qmap = fixed[k]
@@ -610,6 +622,8 @@ def run_samples(run, rng):
                 run.sample({"kind": "expectation_from_samples", **desc, "value": float(val)})
             B.add(f"s{k}:samples_model", f"opair_eqb (sym_samples (terms_of {orc}) {freq_coq(fr)} {znats(qm)}) (Some ({V}, {total}))",
                   {**desc, "case": f"sym:{desc['form']}", "what": "SymbolicHamiltonian.expectation_from_samples vs model"})
+            if multi:
+                B.add(f"s{k}:samples_modelfixed", f"opair_eqb (sym_samples_fixed (terms_of {orc}) {freq_coq(fr)} {znats(qm)}) (Some ({V}, {total}))", desc, expect=None)
             B.add(f"s{k}:samples_spec:{'order' if multi else 'plain'}",
                   f"({V} =? samples_spec {n}%nat (denote {n}%nat {A}) {freq_coq(fr)} {znats(qm)})",
                   {**desc, "value": float(val), "what": "expectation_from_samples vs frequency-weighted eigenvalues of [[form]]"},
@@ -624,6 +638,8 @@ def run_samples(run, rng):
             B.add(f"s{k}:dsamples_model", f"opair_eqb (dense_samples {cmat(h.matrix)} {freq_coq(fr)} {znats(qm)}) {Vd}",
                   {**desc, "case": f"dense:{desc['form']}", "what": "Hamiltonian.expectation_from_samples vs model"})
             full = sorted(qm) == list(range(n))
+            if not full:
+                B.add(f"s{k}:dsamples_modelfixed", f"opair_eqb (dense_samples_fixed {n}%nat {cmat(h.matrix)} {freq_coq(fr)} {znats(qm)}) {Vd}", desc, expect=None)
             if vd is not None:
                 B.add(f"s{k}:dsamples_spec:{'full' if full else 'partial'}",
                       f"({samples_value(vd, total)} =? samples_spec {n}%nat (denote {n}%nat {A}) {freq_coq(fr)} {znats(qm)})",
@@ -634,6 +650,8 @@ def run_samples(run, rng):
     # malformed stream: both sides must refuse
     bad = [(2, ("M", ("S", "X", 0), ("S", "Z", 1)), {"00": 4}, [0, 1], "non-Z factor"),
            (2, ("M", ("S", "Z", 0), ("S", "Z", 1)), {"0": 4}, [0], "qubit missing from the map")]
+    if only is not None:
+        bad = []
     for j, (n, ast, fr, qmap, why) in enumerate(bad):
         h = SymbolicHamiltonian(ast_sympy(ast), nqubits=n)
         try:
@@ -775,6 +793,9 @@ def main(run):
     run_samples(run, rng)
     run_models(run, rng)
     run_malformed(run, rng)
+    run.not_proved += ["samples_expectation_ok for the symbolic route (terms with one Z factor per qubit): correspondence against samples_spec only",
+                       "models_ok for Heisenberg / XXZ / XXX: correspondence (n = 2..5) only; TFIM, X, Y, Z, MaxCut are proved for all n",
+                       "negative integer powers (numpy matrix inverse) are outside the model"]
     return run.finish(level="proof", rule=RULE)
 
 
@@ -809,8 +830,8 @@ def replay(run, data):
         B = Batch(run, "C15_replay")
         check_symbolic(run, B, "r0", ast, rp["nqubits"], rng)
         judge(run, B, B.flush())
-    elif mech == "samples":
-        run_samples(run, random.Random(run.seed))
+    elif mech == "samples" and "form" in rp:
+        run_samples(run, rng, only=(rp["nqubits"], parse_ast(rp["form"]), {str(k): int(v) for k, v in rp["freq"].items()}, rp.get("qubit_map")))
     else:
         return main(run)
     return run.finish(level="proof", rule="replay of one recorded case")
